@@ -161,8 +161,8 @@ def scalar_forms(v, k=0):
         return forms[k % len(forms)]
     forms = [np.float64(v), np.array(float(v)), float(v)]
     fv = float(v)
-    if np.isfinite(fv) and float(np.float32(fv)) == fv:
-        forms.append(np.float32(fv))          # exactly the same number in single precision
+    # (no float32 form: arithmetic with a single-precision scalar is legitimately done in
+    # single precision by numpy)
     if np.isfinite(fv) and fv == int(fv) and abs(fv) < 2 ** 31:
         forms += [int(fv), np.int64(int(fv))]
     return forms[k % len(forms)]
